@@ -1,9 +1,12 @@
 (* C03 — workflow state propagation = nested-loop reference evaluation. *)
-From Pydra Require Import Base.Prelude Model.StateWf Spec.StateWf Proofs.StateWf.
+From Pydra Require Import Base.Prelude Model.StateWf Spec.StateWf Proofs.StateWf Proofs.StateWfMain.
 
+(* the property at full strength: on every well-formed workflow of the modelled fragment the model
+   (= the code) produces exactly the nested-loop outputs *)
 Definition C03_full_statement : Prop :=
   forall wf : workflow, wf_ok wf = true -> model_run wf = Some (spec_run wf).
 
+(* false on the unchanged tree: the diamond multiplies the shared origin (finding F03) *)
 Theorem C03_refuted : ~ C03_full_statement.
 Proof. exact refuted. Qed.
 Print Assumptions C03_refuted.
@@ -13,3 +16,12 @@ Theorem C03_diamond_multiplies :
   /\ spec_njobs diamond = [3; 3; 3; 3].
 Proof. exact diamond_counts. Qed.
 Print Assumptions C03_diamond_multiplies.
+
+(* the strongest positive theorem: for every workflow (any number of nodes, any list lengths) whose nodes
+   are fed by separate origins (no open axis reaches a node through two of its inputs' states, no input
+   state is itself an input of another), that never combine away all inherited axes under an own splitter
+   and never combine over an empty box, the model's outputs are the nested-loop outputs.
+   The excluded class is computable: c03_domain = false. *)
+Theorem C03_partial : forall wf : workflow, c03_domain wf = true -> model_run wf = Some (spec_run wf).
+Proof. exact partial. Qed.
+Print Assumptions C03_partial.
